@@ -85,6 +85,8 @@ func c18(r *core.Run) {
 	c17CharClass(r, "V12", map[string]bool{"IsValidRID": true})
 	r.Rule("V13", "a response holds what its own request's callback supplied (shared with C16.O1): request objects own their memory - the function that builds and serves a request stores into no member of the longer-lived object it was handed and starts no request member on a re-slice of a buffer kept there (an event buffer reused between the requests of a query event is appended to by concurrent requests of a Parallel resource: a response then decodes to another request's events)", 5)
 	c16RequestsOwnTheirMemory(r, "V13")
+	r.Rule("V14", "equality implies JSON equality (shared with C10.D2): the store parser's Value.Equal compares encoded bytes and reference ids and never decodes the two sides into interface values - decoded, JSON numbers are float64, and two data values that differ only beyond float64 precision (ids above 2^53) compare equal although their JSON differs", 1)
+	c10EqualityOnBytes(r, "V14")
 	r.Rule("V10", "classification depends on the text only: every json.Unmarshal of the store's value parser decodes into a zero value made for that call or into the receiver's own members; a pooled or package-level scratch object keeps the members of an earlier parse that the current text does not mention (encoding/json merges), and a reference is classified as a soft reference, a data value as invalid", 1)
 	r.Rule("V7", "equality looks at what the parser set: for every value class, the members of a store Value that Equal reads in that class's arm are members the value parser assigns on every path that ends in that class (the parser does not reset the others, so in a Value that is decoded into again they hold what an earlier text left behind); otherwise Equal answers from stale bytes - equal values differ, different values compare equal", 4)
 	r.Rule("V3", "decoders own their bytes: no UnmarshalJSON method of the library keeps (a slice or byte-slice conversion of) its input parameter in the receiver - the json.Unmarshaler contract lets the caller reuse the buffer, after which a retained alias changes the value's JSON and its equality", 3)
